@@ -23,7 +23,7 @@ SEMI = ('real', 'log', 'viterbi', 'bool')
 
 
 def plan(tier, seed):
-    return dict(n=1500 if tier == 'quick' else 400000, budget_s=80 if tier == 'quick' else 840, case_timeout=120)
+    return dict(n=3000 if tier == 'quick' else 400000, budget_s=80 if tier == 'quick' else 840, case_timeout=120)
 
 
 def gen_case(rng, tier, zero_size=False):
